@@ -146,6 +146,8 @@ type Mutant struct {
 	Expect string `json:"expect"`           // "fail" (a named obligation must fail) or "pass" (harmless control)
 	Kills  string `json:"kills,omitempty"`  // substring of an obligation name expected to fail
 	Note   string `json:"note,omitempty"`
+	Tier   string `json:"tier,omitempty"`   // "thorough": run the thorough tier for this mutant (default quick)
+	Funcs  string `json:"funcs,omitempty"`  // restrict the run to contracts whose name contains this (speed only)
 }
 
 type mutantResult struct {
@@ -252,7 +254,11 @@ func cmdSelftest(args []string) int {
 					results[i] = r
 					return
 				}
-				out := runPropertyIn(prog, p, "quick", "", filepath.Join(verifDir, "work", "selftest", p, sanitizeFile(m.Name)))
+				tier := "quick"
+				if m.Tier != "" {
+					tier = m.Tier
+				}
+				out := runPropertyIn(prog, p, tier, m.Funcs, filepath.Join(verifDir, "work", "selftest", p, sanitizeFile(m.Name)))
 				for _, o := range out.Obls {
 					if o.Expect == "sat" || o.Result == nil {
 						continue
